@@ -196,6 +196,11 @@ func (p *PeerScoreParams) validate() error {
 		}
 	}
 
+	// the weight can be anything, but it is multiplied into every score, so it must be a valid number
+	if isInvalidNumber(p.AppSpecificWeight) {
+		return fmt.Errorf("invalid AppSpecificWeight; must be a valid number")
+	}
+
 	if !p.SkipAtomicValidation || p.IPColocationFactorWeight != 0 {
 		// check the IP collocation factor
 		if p.IPColocationFactorWeight > 0 || isInvalidNumber(p.IPColocationFactorWeight) {
@@ -307,7 +312,8 @@ func (p *TopicScoreParams) validateMessageDeliveryParams() error {
 	if p.FirstMessageDeliveriesWeight < 0 || isInvalidNumber(p.FirstMessageDeliveriesWeight) {
 		return fmt.Errorf("invallid FirstMessageDeliveriesWeight; must be positive (or 0 to disable) and a valid number")
 	}
-	if p.FirstMessageDeliveriesWeight != 0 && (p.FirstMessageDeliveriesDecay <= 0 || p.FirstMessageDeliveriesDecay >= 1 || isInvalidNumber(p.FirstMessageDeliveriesDecay)) {
+	// the decay is applied to the counter even when the weight is 0, so it must always be a valid number
+	if isInvalidNumber(p.FirstMessageDeliveriesDecay) || p.FirstMessageDeliveriesWeight != 0 && (p.FirstMessageDeliveriesDecay <= 0 || p.FirstMessageDeliveriesDecay >= 1) {
 		return fmt.Errorf("invalid FirstMessageDeliveriesDecay; must be between 0 and 1")
 	}
 	if p.FirstMessageDeliveriesWeight != 0 && (p.FirstMessageDeliveriesCap <= 0 || isInvalidNumber(p.FirstMessageDeliveriesCap)) {
@@ -369,7 +375,8 @@ func (p *TopicScoreParams) validateMessageFailurePenaltyParams() error {
 	if p.MeshFailurePenaltyWeight > 0 || isInvalidNumber(p.MeshFailurePenaltyWeight) {
 		return fmt.Errorf("invalid MeshFailurePenaltyWeight; must be negative (or 0 to disable) and a valid number")
 	}
-	if p.MeshFailurePenaltyWeight != 0 && (isInvalidNumber(p.MeshFailurePenaltyDecay) || p.MeshFailurePenaltyDecay <= 0 || p.MeshFailurePenaltyDecay >= 1) {
+	// the decay is applied to the counter even when the weight is 0, so it must always be a valid number
+	if isInvalidNumber(p.MeshFailurePenaltyDecay) || p.MeshFailurePenaltyWeight != 0 && (p.MeshFailurePenaltyDecay <= 0 || p.MeshFailurePenaltyDecay >= 1) {
 		return fmt.Errorf("invalid MeshFailurePenaltyDecay; must be between 0 and 1")
 	}
 
